@@ -92,18 +92,9 @@ Definition bapply (bd : bdisk) (a : bact) : bdisk :=
 
 (* ------------------------------------------------------------------ *)
 (* the byte-level crash adversary                                       *)
-(* a torn write of [new] over the old content [old] of the same range: per
-   8-byte chunk the new or the old bytes *)
-Inductive torn_over : bytes -> bytes -> bytes -> Prop :=
-| tov_nil : torn_over [] [] []
-| tov_new co cn old new T : length co = 8%nat -> length cn = 8%nat -> torn_over old new T ->
-                            torn_over (co ++ old) (cn ++ new) (cn ++ T)
-| tov_old co cn old new T : length co = 8%nat -> length cn = 8%nat -> torn_over old new T ->
-                            torn_over (co ++ old) (cn ++ new) (co ++ T).
-
-(* the n bytes at off (zeros beyond the end: a write there extends the file) *)
-Definition region (s : bytes) (off n : nat) : bytes := firstn n (skipn off s ++ zeros n).
-
+(* torn_over (a torn write of [new] over the old content of the same range: per
+   8-byte chunk the new or the old bytes) and region are defined next to [torn]
+   in Seg/RecoverFacts.v; Seg/FailFacts.v uses them too *)
 (* the unsynced writes reach the durable image one after the other, each torn
    (no CRC collision, the assumption Seg/RecoverFacts.v makes of a torn batch) *)
 Inductive torn_apply : bytes -> list (N * bytes) -> bytes -> Prop :=
